@@ -4,9 +4,11 @@
 #  3. the demo fails with the change and passes on the pristine header
 WT=$1
 cd "$WT" || exit 2
-git diff -- source/include > /tmp/_cs_diff.txt
-if ! diff -q /tmp/_cs_diff.txt _seed/patch.diff > /dev/null; then echo "NOTE: worktree diff differs from patch.diff (checking patch applies to pristine)"; fi
-git stash -q; git apply --check _seed/patch.diff && echo "patch applies to pristine: yes"; git stash pop -q
+git diff -- source/include > _seed/_cs_diff.txt
+if ! diff -q _seed/_cs_diff.txt _seed/patch.diff > /dev/null; then echo "NOTE: worktree diff differs from patch.diff (checking patch applies to pristine)"; fi
+# (no git stash here: the stash stack is shared by all worktrees of /repo, parallel confirmations mixed their changes up once)
+mkdir -p _seed/orig/gch; git show HEAD:source/include/gch/small_vector.hpp > _seed/orig/gch/small_vector.hpp
+(T=$(mktemp -d); mkdir -p $T/source/include/gch; cp _seed/orig/gch/small_vector.hpp $T/source/include/gch/; cd $T && patch -p1 -s --dry-run < "$WT/_seed/patch.diff" && echo "patch applies to pristine: yes"; rm -rf $T)
 cmake --build _build -j8 -- -k0 > _build_confirm.log 2>&1; echo "build rc=$?"
 ctest --test-dir _build -j8 --timeout 900 > _test_confirm.log 2>&1; echo "ctest rc=$? $(grep -E 'tests passed' _test_confirm.log)"
 CMD=$(python3 -c "import json;print(json.load(open('_seed/meta.json'))['demo_compile'])")
